@@ -390,6 +390,31 @@ func (p *verifParser) atom() antlr.ParserRuleContext {
 	return left
 }
 
+// verifModelParseTree is what replaces the generated parser under gosym:
+// the tree the model builds for text, as the root context p.Parse() returns.
+func verifModelParseTree(text string) (*gen.ParseContext, error) {
+	toks, err := verifTokenize(text)
+	if err != nil {
+		return nil, err
+	}
+	for _, t := range toks {
+		if t.typ == verifTokError {
+			return nil, errVerifSyntax
+		}
+	}
+	p := &verifParser{toks: toks}
+	tree := p.expression(0)
+	if p.err == nil && p.peek() != verifEOF {
+		p.err = errVerifSyntax
+	}
+	if p.err != nil {
+		return nil, p.err
+	}
+	root := gen.NewParseContext(nil, nil, 0)
+	root.AddChild(tree)
+	return root, nil
+}
+
 // VerifParse is the model of Parse: tokenizer + parser model + the real visitor.
 func VerifParse(expression string, contextCallback func([]string)) (Expression, error) {
 	toks, err := verifTokenize(expression)
